@@ -656,7 +656,8 @@ Proof.
     destruct (N.eqb_spec (pos mod 8) 0) as [Ez|Enz]; cbn [negb orb].
     + cbn [good]. split; [|exact HI]. exists (wtext b), (wline b).
       rewrite set_text_line_id. reflexivity.
-    + destruct (N.leb_spec (wwidth b) pos) as [Hfull|Hroom].
+    + destruct (N.eqb_spec (wwidth b) 0) as [Hz0|_]; [lia|].
+      destruct (N.leb_spec (wwidth b) pos) as [Hfull|Hroom].
       * destruct (flush_line_ok _ HI) as (tx' & ln' & E & HI2 & Hz).
         rewrite E. cbn [bind]. rewrite tab_loop_0_true. cbn [good].
         split; [|exact HI2]. exists tx', ln'. reflexivity.
@@ -685,10 +686,12 @@ Proof.
     - apply Inv0_set_line; [exact HI0|].
       split; rewrite tlen_push_char, ?raw_push_char, cw0_spacel; lia.
     - prj. rewrite tlen_push_char, cw0_spacel. lia. }
+  destruct (N.eqb_spec (wwidth b) 0) as [Hz0|_]; [lia|].
   destruct (N.leb_spec (wwidth b) pos) as [Hfull|Hroom].
   - destruct (flush_line_ok _ HI) as (tx' & ln' & E & HI2 & Hz).
     rewrite E. cbn [bind]. destruct f as [|f]; [lia|].
     cbn [tab_loop]. rewrite orb_true_r. prj.
+    destruct (N.eqb_spec (wwidth b) 0) as [Hz1|_]; [lia|].
     destruct (N.leb_spec (wwidth b) 0) as [Hbad|_]; [lia|].
     destruct (Hpush (set_text_line b tx' ln') 0 HI2) as [HI3 Hp3]; [prj; lia | prj; lia |].
     eapply good_mono.
